@@ -348,6 +348,24 @@ def bytes_safety(fns, what, bad):
 def linecol_rules(fns, what, bad):
     """C09 b: the per-index tables: from (1, 0); a line break stores (line+1, 0), any other character
     stores (line, col+1); one entry per character in each table; the line table is returned first."""
+    # the tables are a function of the text of this call: the functions that compute or serve them read no
+    # container that outlives the call and are not wrapped by a caching decorator (whatever the key - an
+    # id(), a length, a hash - another text can be served the tables of an earlier one)
+    for fname in ('_map_index_to_line_and_column', '_get_line_and_column'):
+        fn = fns.get(fname)
+        if fn is None:
+            continue
+        local = {a.arg for a in fn.args.args} | {n.id for n in ast.walk(fn) if isinstance(n, ast.Name)
+                                                 and isinstance(n.ctx, ast.Store)}
+        shared = sorted({n.id for n in ast.walk(fn) if isinstance(n, ast.Name) and n.id in P.MODULE_STORES
+                         and n.id not in local})
+        deco = [ast.unparse(d) for d in fn.decorator_list]
+        if shared or deco:
+            bad('TABLE-per-call', f'{what}: {fname} ' + (f'reads/writes the module-level container(s) {shared}' if shared
+                                                         else f'is wrapped by @{deco[0]}') +
+                ': the line/column tables served for a text may be those computed for an earlier text '
+                '(they must be computed from the text of the call)')
+            return 1
     nv = linebreak_vocabulary(fns, what, bad)
     # each recognised way of writing the map is tried with a finding list of its own: findings count
     # only for the shape that was actually recognised
@@ -671,6 +689,20 @@ def finalize_rules(fns, what, bad):
             continue                    # infeasible: the same comparison decided both ways
         partial = cond_full == [True] and (POS, LEN_TEXT) in below
         nob += 1
+        # the value leaves - returned or inside the exception - only after the conversion walk: the
+        # partial_result of PartialParseError is "that same value", positions included
+        if p.end[0] in ('raise', 'return'):
+            walked = False
+            for st in p.steps:
+                if st[0] == 'LOOP' and isinstance(st[1], ast.For) and E.val(
+                        st[1].iter, {a: ('PARAM', a) for a in params}) == ('CALL', ('VAR', 'visit'), NODES):
+                    walked = True
+            leaves = p.end[1] == NODES or (isinstance(p.end[1], tuple) and NODES in P.subterms(p.end[1]))
+            if leaves and not walked:
+                bad('FINALIZE-exits', f'{what}: the value leaves _finalize_parse_info '
+                                      f'({"inside the exception" if p.end[0] == "raise" else "returned"}) on a path that '
+                                      f'has not run the conversion walk over visit(nodes): its objects still carry raw '
+                                      f'(start, end) spans instead of positions')
         if p.end[0] == 'raise':
             saw_raise = True
             exc = p.end[1]
